@@ -143,6 +143,24 @@ CHECKS = {
              '"SocketPort iteration = parser cut + port drain" is tied by correspondence, the two halves are theorems. int() beyond ASCII digits is outside the address model.',
         technique='Lean 4 proof (prefix/cut theorem by induction over the message list on top of the tokenizer resync lemmas; numeral round trip) + differential correspondence on real sockets',
         design='5 C18'),
+    'C03': dict(
+        text='Object model of Message with arbitrary Python values; theorems: after ANY history of construct / copy with overrides / '
+             'setattr / delattr / data += (accepted or rejected) the object satisfies the documented ranges (invariant by induction), a '
+             'rejected op leaves it unchanged, type and attribute count never change, delete is always refused. Correspondence: op '
+             'histories on real objects comparing outcome class and vars() after every op; window-exhaustive single ops per attribute '
+             'and entry point; independent range-table oracle.',
+        note='vars(msg)[...] = ... and skip_checks=True are outside the checked API. An unknown TYPE raises LookupError (not an attribute error). from_str is C14.',
+        technique='Lean 4 proof (one-step preservation lifted by induction over op histories) over a hand model; differential correspondence on op histories',
+        design='5 C03'),
+    'C15': dict(
+        text='Explicit heap model (object identity, class, attribute values); theorems: FRAME - no operation other than setattr on that very '
+             'object changes an existing object; copy() without overrides is a new object of the same class with equal values; frozen '
+             'objects reject set/del with the heap unchanged; freeze idempotent on frozen; thaw(freeze(m)) has m\'s values and class; None '
+             'maps to None; equal frozen objects hash equal and hashing is total on hashable values. Correspondence compares class and '
+             'vars() of EVERY live object after every op of random histories (aliasing shows up as a change of an untouched object).',
+        note='"Copy with overrides = fresh construction" is decided by the oracle (construct afresh and compare), not by a theorem. Creating new attribute names on UnknownMetaMessage is outside.',
+        technique='Lean 4 proof (heap frame property by case analysis of the step function) over a hand model; differential correspondence on heap histories',
+        design='5 C15'),
 }
 
 PENDING = ['C02', 'C03', 'C04', 'C05', 'C06', 'C07', 'C08', 'C09', 'C10', 'C11', 'C12', 'C13', 'C14', 'C15',
